@@ -56,10 +56,18 @@ def _pick_points(ctx, M, N, limit):
     return rows, cols
 
 
+def dft2_before(ctx, args, kwargs):
+    # the caller may pass its input as the output buffer (the repository's own test does): keep the input
+    a = _bind_dft2(args, kwargs)
+    if a['out'] is not None and isinstance(a['f'], np.ndarray) and np.shares_memory(a['out'], a['f']):
+        return np.array(a['f'], copy=True)
+    return None
+
+
 def dft2_oracle(ctx, args, kwargs, result, exc, pre):
     a = _bind_dft2(args, kwargs)
     try:
-        f = np.asarray(a['f'])
+        f = np.asarray(a['f']) if pre is None else pre
         ar, ac = (float(x) for x in np.broadcast_to(a['alpha'], (2,)))
         shape = f.shape if a['shape'] is None else tuple(int(x) for x in np.broadcast_to(a['shape'], (2,)))
         shift = tuple(float(x) for x in np.broadcast_to(a['shift'], (2,)))
@@ -136,6 +144,9 @@ def idft2_oracle(ctx, args, kwargs, result, exc, pre):
     ctx.close('idft2=sum', g, ref, 1.0, key + '|value',
               'idft2 differs from the inverse Fourier sum with the normalisation the flag selects',
               wit, scale=tol)
+
+
+dft2_oracle.before = dft2_before
 
 
 def install(ctx, lentil):
@@ -256,6 +267,12 @@ def workload(ctx, lentil):
         ctx.case(desc, ['inverse:unitary' if unitary else 'inverse:nonunitary'], nontrivial=f.size > 1)
         F = dft2(f, alpha, unitary=unitary)
         g = idft2(F, alpha, unitary=unitary)
+        if i % 3 == 0:
+            # inverse into a caller-supplied buffer: same values as a fresh allocation, in the buffer itself
+            buf = (rng.normal(size=(m, n)) + 1j * rng.normal(size=(m, n))).astype(complex)
+            gb = idft2(F, alpha, unitary=unitary, out=buf)
+            ctx.check(gb is buf and np.array_equal(buf, g), 'out=same', f'idft2|out-values|unitary={unitary}',
+                      'idft2 with out= leaves other values in the buffer than a fresh allocation returns', desc)
         scale = max(float(np.max(np.abs(f))), 1e-300)
         ctx.close('roundtrip', g, f, 1e-11, f'roundtrip|unitary={unitary}',
                   'idft2(dft2(f)) with alpha=1/n, equal shapes and the same flag does not recover f',
